@@ -34,8 +34,14 @@ def mcgetC (toks : List String) : String :=
     | _, _ => "bad-op"
   | _ => "bad-op"
 
+/-- `mcrun <reply>`: `ok <list of results>` or the raised error. -/
+def mcrunC (toks : List String) : String :=
+  match readVal toks with
+  | some (v, []) => showResult ((multicallRun v).map PyVal.list)
+  | _ => "bad-op"
+
 def clientComponents : List (String × (List String → String)) := [
-  ("cfe", cfeC), ("proxy", proxyC), ("notify", notifyC), ("mcget", mcgetC)
+  ("cfe", cfeC), ("proxy", proxyC), ("notify", notifyC), ("mcget", mcgetC), ("mcrun", mcrunC)
 ]
 
 end JRV.Driver
